@@ -4,8 +4,8 @@ CONSTANTS
   NRegs = 3
   BaseSeq <- CatSeq
   BaseEq <- CatEq
-  Scales <- S_Quick
-  MaxLen = 6
+  Scales <- S_Wide
+  MaxLen = 5
   Queries <- Q_All
   TerminalQueries = TRUE
 VIEW View
